@@ -47,10 +47,12 @@ class DaskStream(Stream):
 class map(DaskStream):
     def __init__(self, upstream, func, *args, **kwargs):
         self.func = func
+        # this one is for the node, not for the function
+        stream_name = kwargs.pop('stream_name', None)
         self.kwargs = kwargs
         self.args = args
 
-        DaskStream.__init__(self, upstream)
+        DaskStream.__init__(self, upstream, stream_name=stream_name)
 
     def update(self, x, who=None, metadata=None):
         client = default_client()
@@ -67,7 +69,8 @@ class accumulate(DaskStream):
         self.returns_state = returns_state
         self.kwargs = kwargs
         self.with_state = kwargs.pop('with_state', False)
-        DaskStream.__init__(self, upstream)
+        stream_name = kwargs.pop('stream_name', None)
+        DaskStream.__init__(self, upstream, stream_name=stream_name)
 
     def update(self, x, who=None, metadata=None):
         if self.state is core.no_default:
